@@ -477,4 +477,64 @@ theorem pipeline_to_ljh22_file_weave (zts : List (List (Int × Int))) (j : Nat)
     · rw [hparse, List.map_map]; rfl
     · rw [hlen, List.length_map]
 
+/-! ### OFF: the analysis values travel as opaque bit patterns -/
+
+/-- the float32 bit patterns `AnalyzeData` attaches to a record (pre-trigger mean, pre-trigger delta,
+residual standard deviation) and the projection coefficients; their VALUES are C13's subject -/
+structure Analysis where
+  ptm : Nat
+  pd : Nat
+  resid : Nat
+  coefs : List Nat
+
+/-- what `PublishData` hands to the OFF writer for an analysed record -/
+def toWO (an : Rec → Analysis) (r : Rec) : C05.WO :=
+  { nsamp := r.data.length, npre := r.npre, frame := r.frame, ts := r.time,
+    ptm := (an r).ptm, pd := (an r).pd, resid := (an r).resid, coefs := (an r).coefs }
+
+/-- **Published records to the OFF file.**  For ANY list of records a channel publishes inside a writing
+period (so in particular `chanRecs j outs` of any run of the source model, edge-multi or not — the OFF
+record carries its own length) and any analysis that yields one coefficient per basis of the loaded model
+(`projR`) for every record: the OFF file exists iff there was a record, and its body read back with the
+0.3.0 record layout is exactly those records in order — record length, pre-trigger length, frame, time
+stamp as the pipeline cut them, analysis values as attached —, file length = header + count × (36 + 4·projR). -/
+theorem records_to_off_file (recs : List Rec)
+    (an : Rec → Analysis) (p : C05.Params) (hdr : C05.Bytes)
+    (han : ∀ r ∈ recs, (an r).coefs.length = p.projR)
+    (batches : List (List C05.WO)) (hbat : batches.flatten = recs.map (toWO an)) :
+    let fin := C05.run (C05.fmtOff p hdr) {} (fileOps batches)
+    (recs = [] → C05.fileOf fin = none) ∧
+    (recs ≠ [] → ∃ file, C05.fileOf fin = some file ∧ file.take hdr.length = hdr ∧
+      C05.parseBody (C05.parseOFF p.projR) (file.drop hdr.length) =
+        some (recs.map fun r => C05.expectOFF (toWO an r)) ∧
+      file.length = hdr.length + recs.length * (36 + 4 * p.projR)) := by
+  have hacc : ∀ b ∈ batches, ∀ r ∈ b, (C05.fmtOff p hdr).accept r = true := by
+    intro b hbm r hr
+    have : r ∈ batches.flatten := List.mem_flatten.mpr ⟨b, hbm, hr⟩
+    rw [hbat] at this
+    obtain ⟨x, hx, rfl⟩ := List.mem_map.mp this
+    simp only [C05.fmtOff, toWO, beq_iff_eq]
+    exact han x hx
+  obtain ⟨hstop, htouch, haccd⟩ := fileOps_spec (C05.fmtOff p hdr) batches hacc
+  have hany := any_nonempty_iff batches
+  rw [hbat] at hany
+  simp only
+  refine ⟨?_, ?_⟩
+  · intro hnil
+    have ht : C05.touched (ρ := C05.WO) {} (fileOps batches) = false := by
+      rw [htouch]
+      cases h : batches.any (fun b => !b.isEmpty) with
+      | false => rfl
+      | true => exact absurd (by rw [hnil]; rfl) (hany.mp h)
+    rw [C05.C05_file_is_header_plus_records _ _ hstop, ht]
+    simp
+  · intro hne
+    have ht : C05.touched (ρ := C05.WO) {} (fileOps batches) = true := by
+      rw [htouch]; exact hany.mpr (by simpa using hne)
+    obtain ⟨file, hf, htake, hparse, hlen⟩ := C05.C05_body_parses_back_off p hdr _ hstop ht
+    rw [haccd, hbat] at hparse hlen
+    refine ⟨file, hf, htake, ?_, ?_⟩
+    · rw [hparse, List.map_map]; rfl
+    · rw [hlen, List.length_map]
+
 end DastardV.Compose
